@@ -60,6 +60,9 @@ var Frags = []string{
 	"[t](/x\xffy)", "<http://a\x80b>", "[r]: /u\xc3\n", "![\xff](/s \"\xc3\")", "`\xff`",
 	// list items that begin with a blank line, marker indented or not
 	"-\n  a", " -\n   a", "  1.\n     a", "-\n      code", "  -\n        code", "   *\n         code\n",
+	// code lines that begin with a tab of which only a part is indentation to strip: under an indented opening
+	// fence, inside containers, after a marker (the tree then holds an Indent of 1-3 columns for one tab byte)
+	" ```\n\tx\n ```\n", "  ~~~\n\t\ty\n  ~~~\n", "   ```\n \tz\n", "> ```\n>\tx\n> ```\n", "- ```\n\t x\n  ```\n", ">\t```\n>\t\tx\n", "1. ```\n \t\tx\n", "-\t\tcode\n \t\tmore\n", " >\t    x\n",
 }
 
 // Soup is G1: a weighted sequence of fragments with occasional arbitrary bytes.
@@ -576,6 +579,16 @@ func LongDoc(lo, hi int) *rapid.Generator[[]byte] {
 				out = append(out, "para "...)
 				out = strconv.AppendInt(out, int64(i), 10)
 				out = append(out, " &amp; [x]\n\n"...)
+			}
+		}
+		// half of the documents get NULs at drawn places (single NULs, short runs,
+		// and now and then a run of thousands): a NUL costs the parser two bytes of
+		// padding, so the buffer arithmetic of a refill depends on where they fall
+		if rapid.Bool().Draw(t, "nuls") {
+			for k := rapid.IntRange(1, 6).Draw(t, "nnul"); k > 0; k-- {
+				pos := rapid.IntRange(0, len(out)).Draw(t, "nulpos")
+				n := []int{1, 1, 1, 2, 3, 40, 2731, 3000}[rapid.IntRange(0, 7).Draw(t, "nullen")]
+				out = append(out[:pos], append(make([]byte, n), out[pos:]...)...)
 			}
 		}
 		return out
